@@ -7,16 +7,18 @@ policy, validity flag and cached arrays, current-value caches - with the repaire
 the coherence invariants).
 
 Binding (spec -> code):
- 1. TLC explores DesignSpace.tla exhaustively within the bounds, checks the algebra of the property on
-    every state x probe vector, and prints for every distinct abstract state the expected result of every
-    public accessor (the `View` record: scaled integers, eighths).
- 2. TLC explores DesignSpaceImpl.tla (coherence invariants + refinement of the abstract next-state
-    relation), dumps the labelled state graph; a transition tour of that graph is replayed on a real
-    gemseo DesignSpace: after every step the object is projected through PUBLIC accessors (on deep copies,
-    so that the cache state of the object under test is driven by the tour only) and compared with the
-    View TLC printed for the abstract part of the target state.
+ 1. TLC explores DesignSpace.tla exhaustively within the bounds and checks the algebra of the property on
+    every state x probe vector (round trip, unit image, gradient scaling, projection/membership, partition).
+ 2. TLC explores DesignSpaceImpl.tla (coherence invariants; refinement of the abstract next-state
+    relation) and dumps the labelled state graph.  For every abstract state of the graph TLC
+    (DesignSpaceViews.tla, states passed as JSON) computes the `View` record: the expected result of every
+    public accessor as scaled integers (eighths).  A transition tour of the graph is replayed on real
+    gemseo DesignSpace objects: after every step the object is projected through PUBLIC accessors (on deep
+    copies, so that the cache state of the object under test is driven by the tour only) and compared with
+    the View of the target state.
  3. For each of D1, D3, D15, D16 the rule as coded today is switched on in the Impl module and TLC must
     refute the matching coherence invariant (the invariants are not vacuous).
+ 4. DesignSpaceSim.tla (`tlc -simulate`): longer random behaviours over larger alphabets, replayed the same way.
 Python only transports values (eighths -> floats, building arguments, comparing).
 """
 from __future__ import annotations
@@ -24,6 +26,7 @@ from __future__ import annotations
 import copy
 import json
 import random
+import shutil
 import time
 import traceback
 
@@ -54,21 +57,19 @@ def constants(c):
             f" MaxLevel = {c['level']}\n")
 
 
-def abs_cfg(c, emit=True):
+def abs_cfg(c):
     s = constants(c) + "SPECIFICATION Spec\nCONSTRAINT Bounded\nCHECK_DEADLOCK FALSE\n"
     for i in ABS_INVS:
-        s += f"INVARIANT {i}\n"
-    if emit:
-        s += "INVARIANT EmitView\n"
+        s += f"INVARIANT {i}B\n"
     return s
 
 
-def impl_cfg(c, as_coded=(), refine=True):
+def impl_cfg(c, as_coded=(), refine=True, bounded=True):
     s = constants(c) + (f" AsCoded = {tla_set(as_coded)}\n Vias = {tla_set(c['vias'])}\n Forms = {tla_set(c['forms'])}\n"
-                        f" QKinds = {tla_set(c['qkinds'])}\n")
+                        f" QKinds = {tla_set(c['qkinds'])}\n FilterModes = {tla_set(c['fmodes'])}\n")
     s += "SPECIFICATION ImplSpec\nCONSTRAINT Bounded\nCHECK_DEADLOCK FALSE\n"
     for i in IMPL_INVS:
-        s += f"INVARIANT {i}\n"
+        s += f"INVARIANT {i}{'' if as_coded or not bounded else 'B'}\n"
     if refine and not as_coded:
         s += "PROPERTY Spec\n"
     return s
@@ -169,6 +170,12 @@ def apply_action(ds, DesignSpace, act, args, src, dst, view, fails):
         k = [v["name"] for v in src["vars"]].index(args[0])
         ds.rename_variable(args[0], dvars[k]["name"])
     elif act == "FilterVariables":
+        if args[1] == "copy":
+            before = list(ds.variable_names)
+            new = ds.filter(sorted(args[0]), copy=True)
+            if list(ds.variable_names) != before or new is ds:
+                fails.append(("filter_copy_original", {}))
+            return new
         ds.filter(sorted(args[0]))
     elif act == "FilterDimensions":
         ds.filter_dimensions(args[0], [i - 1 for i in sorted(args[1])])
@@ -213,6 +220,12 @@ def apply_action(ds, DesignSpace, act, args, src, dst, view, fails):
             fails.append(("cur_norm", {}))
     else:
         raise MachineryError(f"unknown action {act}")
+    return ds
+
+
+def raised_by_gemseo(ex):
+    """An exception counts against gemseo only if it passed through gemseo code (otherwise the harness is wrong)."""
+    return any("/gemseo/" in fr.filename.replace("\\", "/") for fr in traceback.extract_tb(ex.__traceback__))
 
 
 def member(ds, x):
@@ -240,6 +253,8 @@ def project(ds0, DesignSpace, state, view):
         try:
             r = fn()
         except Exception as ex:  # noqa: BLE001  (an exception on a query the specification allows)
+            if not raised_by_gemseo(ex):
+                raise
             fails.append((name, {"exception": type(ex).__name__, "message": str(ex)[:300]}))
             return
         if isinstance(r, dict):
@@ -353,7 +368,14 @@ def project(ds0, DesignSpace, state, view):
 
     clause("unnormalize_vect_2d", unnorm_2d)
     gs = [vec(g) for g in view["gs"]]
+    ugdef = list(view["ugdef"])
     clause("normalize_grad", lambda: arr(ds.normalize_grad(gs[0]), view["ng"][0]))
+    clause("normalize_grad_2d", lambda: True if np.array_equal(  # a Jacobian: one gradient per row
+        np.asarray(ds.normalize_grad(np.vstack([gs[0], gs[0]])), dtype=float),
+        np.vstack([vec(view["ng"][0])] * 2)) else "Jacobian differs")
+    clause("unnormalize_grad_2d", lambda: True if same_where(
+        np.asarray(ds.unnormalize_grad(np.vstack([gs[0], gs[0]])), dtype=float)[1], view["ug"][0], ugdef)
+           else "Jacobian differs")
 
     def grad_frac():
         got = np.asarray(ds.normalize_grad(gs[1]), dtype=float)
@@ -366,7 +388,6 @@ def project(ds0, DesignSpace, state, view):
         return {"got": repr(got.tolist()), "sig": {"only_integer_components_rounded": bool(only_rounded)}}
 
     clause("normalize_grad_frac", grad_frac)
-    ugdef = list(view["ugdef"])
     for p, g in enumerate(gs):
         clause("unnormalize_grad", lambda p=p, g=g: True if same_where(ds.unnormalize_grad(g), view["ug"][p], ugdef)
                else repr(np.asarray(ds.unnormalize_grad(g)).tolist()))
@@ -409,6 +430,28 @@ def project(ds0, DesignSpace, state, view):
         return True if (ds == t and t == ds) else "not equal to a design space built from the abstract state"
 
     clause("eq_twin", twin)
+    snames = list(view["snames"])
+    clause("indexed_names", lambda: eq(list(ds.get_indexed_variable_names()), snames))
+    if view["curin"]:  # (to_scalar_variables re-adds the values with add_variable, which rejects values outside the bounds)
+
+        def scalar():
+            sc = ds.to_scalar_variables()
+            if list(sc.variable_names) != snames:
+                return repr(sc.variable_names)
+            if any(int(sc.get_size(k)) != 1 for k in snames):
+                return "sizes"
+            if [str(sc.get_type(k)) for k in snames] != ["integer" if i else "float" for i in view["isint"]]:
+                return "types"
+            if not same(sc.get_lower_bounds(), view["lb"]) or not same(sc.get_upper_bounds(), view["ub"]):
+                return "bounds"
+            cur = sc.get_current_value(as_dict=True)
+            for k, nm in enumerate(snames):
+                has = cur.get(nm) is not None
+                if has != view["shasv"][k] or (has and not same(cur[nm], [view["cvals"][k]])):
+                    return "current value of " + nm
+            return True
+
+        clause("to_scalar_variables", scalar)
     return fails
 
 
@@ -454,14 +497,16 @@ def step_facts(act, args, src):
 
 # ------------------------------------------------------------------ the check
 
+QUICK = dict(nnames=3, maxvars=2, templates=[1, 2], lbvals=[16], ubvals=[16], infbounds=True,
+             cur=["hi"], level=4, vias=["add", "extend"], forms=["array", "dict"],
+             qkinds=["normalize", "project"], fmodes=["inplace", "copy"])
+THOROUGH = dict(nnames=4, maxvars=3, templates=[1, 2, 3, 5], lbvals=[16], ubvals=[16], infbounds=True,
+                cur=["lo", "hi"], level=5, vias=["add", "extend", "from"], forms=["array", "dict"],
+                qkinds=["normalize", "unnormalize", "round", "project"], fmodes=["inplace", "copy"])
+
+
 def tier_constants(ck: Check):
-    if ck.thorough:
-        return dict(nnames=4, maxvars=3, templates=[1, 2, 3, 5], lbvals=[16], ubvals=[16], infbounds=True,
-                    cur=["lo", "hi"], level=5, vias=["add", "extend", "from"], forms=["array", "dict"],
-                    qkinds=["normalize", "unnormalize", "round", "project"])
-    return dict(nnames=3, maxvars=2, templates=[1, 2], lbvals=[16], ubvals=[16], infbounds=True,
-                cur=["hi"], level=4, vias=["add", "extend"], forms=["array", "dict"],
-                qkinds=["normalize", "project"])
+    return dict(THOROUGH if ck.thorough else QUICK)
 
 
 def views_for(ck: Check, c, states, tag):
@@ -480,6 +525,11 @@ def views_for(ck: Check, c, states, tag):
     if len(out) != len(states):
         raise MachineryError(f"{len(out)} views for {len(states)} abstract states ({tag})")
     return out
+
+
+# clauses whose failure says nothing about the state of the object (pure functions of their argument on a copy):
+# the behaviour continues with the same object
+STATELESS = {"normalize_grad_frac"}
 
 
 class Replayer:
@@ -515,8 +565,10 @@ class Replayer:
             fails = []
             sig = dict({"op": act}, **step_facts(act, args, src))
             try:
-                apply_action(ds, self.DS, act, args, src, dst, view, fails)
+                ds = apply_action(ds, self.DS, act, args, src, dst, view, fails)
             except Exception as ex:  # noqa: BLE001  gemseo raised on an operation the specification allows
+                if not raised_by_gemseo(ex):
+                    raise
                 fails = [("raises", {"exception": type(ex).__name__, "message": str(ex)[:300],
                                      "traceback": traceback.format_exc(limit=5)})]
             else:
@@ -525,8 +577,9 @@ class Replayer:
                     self.n_proj += 1
             if key is not None:
                 self.checked.add(key)
+            stateful = any(cl not in STATELESS for cl, _ in fails)
             if fails:
-                if key is not None:
+                if key is not None and stateful:
                     self.bad.add(key)
                 for cl, det in fails:
                     s = dict(sig, clause=cl)
@@ -537,7 +590,8 @@ class Replayer:
                                          "expected_state": {"vars": dst["vars"], "intNorm": dst["intNorm"]},
                                          "cache_state_before": {kk: src[kk] for kk in ("normValid", "curArrC", "normCurC")},
                                          **det})
-                ds = self.resync(dst, view)
+                if stateful:
+                    ds = self.resync(dst, view)
         ck.traces += 1
         return hist
 
@@ -546,6 +600,14 @@ EMPTY = {"vars": (), "intNorm": False, "normValid": False, "curArrC": (), "normC
 
 
 def run(ck: Check):
+    try:
+        _run(ck)
+    except BaseException:
+        shutil.rmtree(ck.work, ignore_errors=True)
+        raise
+
+
+def _run(ck: Check):
     from gemseo.algos.design_space import DesignSpace
 
     rng = random.Random(ck.seed)
@@ -554,15 +616,17 @@ def run(ck: Check):
 
     # ---- 1. abstract module: the algebra of the property on every state x probe within the bounds
     t0 = time.time()
-    r = ck.tlc("DesignSpace", abs_cfg(c, emit=False), workers=8, timeout=1500,
+    # (8 workers: the BFS level of a state near the depth bound depends on scheduling, so the number of states of
+    #  this run may vary by a few; it is reported apart and the deterministic graph run below is what is counted)
+    r = ck.tlc("DesignSpace", abs_cfg(c), workers=8, timeout=1500, count=False,
                require_actions=("Add", "SetLB", "SetUB", "FilterDims", "SetCurVar", "ToggleIntNorm"))
-    ck.extra["abstract_states"] = r.distinct
+    ck.extra["abstract_run"] = {"distinct": r.distinct, "generated": r.generated}
     timing["abstract_tlc_s"] = round(time.time() - t0, 1)
 
     # ---- 2. the invariants are not vacuous: the rules as coded are refuted at specification level
     t0 = time.time()
     small = dict(c, nnames=3, maxvars=2, level=6, templates=[1, 2], cur=["hi"], vias=["add"], forms=["array"],
-                 qkinds=["normalize"])
+                 qkinds=["normalize"], fmodes=["inplace"])
     refuted = {}
     for d, inv in REFUTE.items():
         rr = ck.tlc("DesignSpaceImpl", impl_cfg(small, as_coded=[d]), workers=4, timeout=600, expect_ok=False,
@@ -576,8 +640,15 @@ def run(ck: Check):
     # ---- 3. implementation-shaped module: coherence + refinement, labelled state graph
     # (one worker: with several, the BFS level of a state - hence the depth-bounded graph - depends on scheduling)
     t0 = time.time()
-    r = ck.tlc("DesignSpaceImpl", impl_cfg(c), workers=1, timeout=1500, dump=True)
-    timing["impl_tlc_s"] = round(time.time() - t0, 1)
+    # coherence invariants on the whole bounded graph; refinement of the abstract next-state relation
+    # (PROPERTY Spec, costly: the abstract Next is evaluated on every transition) on the quick-size constants
+    ck.tlc("DesignSpaceImpl", impl_cfg(c, refine=not ck.thorough), workers=8, timeout=1500, count=False)
+    if ck.thorough:
+        ck.tlc("DesignSpaceImpl", impl_cfg(dict(c, **QUICK)), workers=8, timeout=1500, count=False)
+    timing["impl_tlc_verify_s"] = round(time.time() - t0, 1)
+    t0 = time.time()
+    r = ck.tlc("DesignSpaceImpl", impl_cfg(c, refine=False), workers=1, timeout=1500, dump=True, coverage=False)
+    timing["impl_tlc_graph_s"] = round(time.time() - t0, 1)
     t0 = time.time()
     g = Graph(ck.work / "DesignSpaceImpl.dot")
     canonical(g)
@@ -621,18 +692,20 @@ def run(ck: Check):
     # ---- 6. longer random behaviours over larger alphabets (tlc -simulate), replayed the same way
     t0 = time.time()
     sc = sim_constants(ck)
-    cfg = impl_cfg(sc, refine=False).replace("SPECIFICATION ImplSpec", "SPECIFICATION SimSpec").replace(
+    cfg = impl_cfg(sc, refine=False, bounded=False).replace("SPECIFICATION ImplSpec", "SPECIFICATION SimSpec").replace(
         "CONSTRAINT Bounded\n", "") + f"CONSTANTS Depth = {sc['depth']}\n"
     r = ck.tlc("DesignSpaceSim", cfg, workers=1, timeout=900, simulate=f"num={sc['num']}", depth=sc["depth"] + 2,
                seed=ck.seed, count=False, coverage=False)
-    behaviours, cur = [], []
+    # the Depth values printed by one Finish step are consecutive, in the order TLC enumerates 1..Depth
+    behaviours, buf = [], {}
     for v in r.printed():
         if isinstance(v, tuple) and len(v) == 3 and v[0] == "STEP":
-            if v[1] == 1:
-                cur = []
-                behaviours.append(cur)
-            cur.append(v[2])
-    behaviours = [b for b in behaviours if len(b) == sc["depth"]]
+            if v[1] in buf:
+                raise MachineryError("interleaved STEP records in the simulation output")
+            buf[v[1]] = v[2]
+            if len(buf) == sc["depth"]:
+                behaviours.append([buf[i] for i in range(1, sc["depth"] + 1)])
+                buf = {}
     if len(behaviours) != sc["num"]:
         raise MachineryError(f"only {len(behaviours)} simulated behaviours parsed")
     sim_states = {}
@@ -670,10 +743,10 @@ def sim_constants(ck: Check):
     if ck.thorough:
         return dict(nnames=4, maxvars=3, templates=[1, 2, 3, 4, 5, 6], lbvals=[0, 16], ubvals=[16, 32], infbounds=True,
                     cur=["lo", "hi"], level=100, vias=["add", "extend", "from"], forms=["array", "dict"],
-                    qkinds=["normalize", "unnormalize", "round", "project"], depth=12, num=400)
+                    qkinds=["normalize", "unnormalize", "round", "project"], fmodes=["inplace", "copy"], depth=12, num=400)
     return dict(nnames=4, maxvars=3, templates=[1, 2, 3, 4, 5, 6], lbvals=[0, 16], ubvals=[16, 32], infbounds=True,
                 cur=["lo", "hi"], level=100, vias=["add", "extend", "from"], forms=["array", "dict"],
-                qkinds=["normalize", "unnormalize", "round", "project"], depth=10, num=60)
+                qkinds=["normalize", "unnormalize", "round", "project"], fmodes=["inplace", "copy"], depth=10, num=60)
 
 
 if __name__ == "__main__":
